@@ -144,6 +144,9 @@ def check(facts, rep, tier, cfg):
     for v in sub.violations:
         rep.bad("C04.R7", v["key"].split("/", 1)[1], v["where"], v["msg"])
     check_option_setters(facts, rep, crate, "C04.R2", ['rwnd', 'default_rwnd_threshold'])
+    rep.rule("C04.S7", "no new process-wide mutable state (static cell / lock / once-cell) in the files this property is anchored in")
+    import whomay
+    whomay.check_new_statics(facts, rep, "C04.S7", "C04")
 
 
 def _check_positive(facts, rep, b, bi, s, what):
